@@ -60,10 +60,10 @@ def ucnStep : List Byte → List Byte × List Byte
       | b :: rest' =>
         if b = 117#8 then                                   -- startswith(p, "\\u")
           let c := readUniversalChar rest' 4 0
-          if c ≠ 0#32 then (encodeUtf8 c, rest'.drop 4) else ([a], rest)
+          if c ≠ 0#32 ∧ c ≠ 10#32 then (encodeUtf8 c, rest'.drop 4) else ([a], rest)     -- `if (c && c != '\\n')`
         else if b = 85#8 then                               -- startswith(p, "\\U")
           let c := readUniversalChar rest' 8 0
-          if c ≠ 0#32 then (encodeUtf8 c, rest'.drop 8) else ([a], rest)
+          if c ≠ 0#32 ∧ c ≠ 10#32 then (encodeUtf8 c, rest'.drop 8) else ([a], rest)
         else ([a, b], rest')                                -- `*q++ = *p++; *q++ = *p++;`
       | [] => ([a], [])                                     -- (the C code would copy the terminator too; texts end in "\n")
     else ([a], rest)
